@@ -19,13 +19,17 @@ def run(ids=None, jobs=2):
             open(p, "w").write(s.replace(m["old"], m["new"], 1))
             env = dict(os.environ, PVC_REPO=d)
             out = subprocess.run(["python3-vt", os.path.join(os.path.dirname(os.path.dirname(os.path.abspath(__file__))), "dev.py"), "--fast"] + m["funcs"], capture_output=True, text=True, env=env, timeout=1800)
-            failed = re.findall(r"\[(?:unknown|failed)\] (\S+)", out.stdout)
+            allf = re.findall(r"\[(?:unknown|failed|refuted)\] (\S+)", out.stdout)
+            failed = [f for f in allf if not f.endswith("#unsupported")]
+            undecided = [f for f in allf if f.endswith("#unsupported")]
             if "Traceback" in out.stderr:
                 return m["id"], "ERROR", out.stderr.strip().splitlines()[-1]
             if m.get("equiv"):
+                if undecided and not failed:
+                    return m["id"], "UNDECIDED", ",".join(sorted(set(undecided)))
                 return m["id"], ("OK-equivalent" if not failed else "FALSE-ALARM"), ",".join(sorted(set(failed)))
             hit = [f for f in failed if m["expect"] in f]
-            return m["id"], ("KILLED" if hit else ("KILLED-other" if failed else "SURVIVED")), ",".join(sorted(set(failed)))[:300]
+            return m["id"], ("KILLED" if hit else ("KILLED-other" if failed else ("UNDECIDED" if undecided else "SURVIVED"))), ",".join(sorted(set(failed or undecided)))[:300]
         finally:
             shutil.rmtree(d, ignore_errors=True)
     with ThreadPoolExecutor(jobs) as ex:
@@ -37,5 +41,5 @@ if __name__ == "__main__":
     bad = 0
     for mid, status, detail in run(ids):
         print("%-5s %-14s %s" % (mid, status, detail))
-        if status in ("SURVIVED", "ERROR", "STALE", "FALSE-ALARM"): bad += 1
+        if status in ("SURVIVED", "ERROR", "STALE", "FALSE-ALARM", "UNDECIDED"): bad += 1
     sys.exit(1 if bad else 0)
